@@ -27,7 +27,9 @@
        condition's and the body's instructions in turn, in one scope that is emptied before each; exitWith in either
        ends the loop; premises: no cap on loop rounds, a boolean condition, non-empty condition and body that begin
        with a push or a variable read.  Blocks are stated to start at a statement boundary (Fresh: the scope's part of
-       the operand stack is empty, or holds the nil the calling operator left there).
+       the operand stack is empty, or holds the nil the calling operator left there).  A whole program whose top-level
+       statements are of that relation, loaded as the root frame, is run by execute_do to result `empty` with exactly
+       its value (VM/SimProg.v, C02_program_runs, C02_program_ref).
        NOT covered by the simulation: switch,
        exitWith inside an operand, breakOut, try / catch / throw, waitUntil, nil operands, a while loop with an empty
        body or a non-boolean condition - for these the
@@ -44,7 +46,7 @@
    Properties_C05 (one value per scope, regions). *)
 From Coq Require Import String Ascii.
 From Coq Require Import ZArith List Bool Lia.
-From SqfVerif Require Import Gen.DiagCodes Gen.Overloads VM.VmDefs VM.VmExec VM.RefSem VM.C02Proofs VM.SimDefs VM.SimProofs VM.SimBlock VM.SimCtl VM.SimRun VM.SimExit.
+From SqfVerif Require Import Gen.DiagCodes Gen.Overloads VM.VmDefs VM.VmExec VM.RefSem VM.C02Proofs VM.SimDefs VM.SimProofs VM.SimBlock VM.SimCtl VM.SimRun VM.SimExit VM.SimProg.
 Import ListNotations.
 Local Open Scope string_scope.
 Local Open Scope list_scope.
@@ -503,4 +505,62 @@ Proof.
                           |eapply ZBLast; eapply ZSAssign; [discriminate|eapply ZPure; eapply PBin; [eapply PVarG; reflexivity|eapply PNum|reflexivity]|split; discriminate]|].
       eapply ZWhileStop. eapply ZBLast; eapply ZSExprV; eapply ZPure; eapply PBin; [eapply PVarG; reflexivity|eapply PNum|reflexivity]. }
   reflexivity.
+Qed.
+
+(* ---- whole programs with loops: the top-level statements are statements of the relation above (expressions,
+   assignments and private bindings over call, if-then-else, the array loops, for, while, lazy operators, with exitWith
+   anywhere below the top level).  The reference semantics computes the program's value and final state; the VM model,
+   with the compiled program as the root frame of a context, is run by execute_do slice by slice: the slice that finishes
+   it returns `empty`, no frame is left, the context holds exactly the program's value, the namespaces are those of the
+   reference result. *)
+Theorem C02_program_ref : forall s reg p reg' s', zprog s reg p reg' s' ->
+  exists f0, forall f, f0 <= f -> eval_block f s p reg = (ONormal reg', s').
+Proof. exact zprog_ref. Qed.
+Print Assumptions C02_program_ref.
+Theorem C02_program_runs : forall s p reg s' r c f,
+  zprog s RNone p reg s' ->
+  AtM s RNone r c f [] [] -> f_code f = compile_block p -> f_pos f = 0 -> f_exit f = None ->
+  exists rf cf,
+    Steps r rf /\ cur rf = Some cf /\ c_frames cf = [] /\
+    c_values cf = match reg with RNone => [] | v => [cv v] end /\
+    r_nss rf = mnss (st_nss s') /\
+    do_iter rf = Ok (Return REmpty rf) /\
+    forall fuel n x r', execute_do fuel r n = Ok (x, r') ->
+      (x = REmpty /\ r' = rf) \/ (x = ROk /\ Steps r r' /\ Steps r' rf).
+Proof. exact program_run_z. Qed.
+Print Assumptions C02_program_runs.
+(* a program of that kind and its premises on a concrete machine:  i = 0; while { i < 3 } do { i = i + 1 }; i  yields 3 *)
+Definition ex_loop_prog : list stmt :=
+  [SAssign "i" (ENum 0); SExpr ex_while; SExpr (EVar "i")].
+Example program_inhabited : exists s', zprog init_state RNone ex_loop_prog (RNum 3) s' /\ glob_of s' "i" = Some (RNum 3).
+Proof.
+  eexists. split.
+  { eapply ZPCons; [eapply ZSAssign; [discriminate|eapply ZPure; eapply PNum|split; discriminate]|].
+    eapply ZPCons.
+    - eapply ZSExprV. eapply ZWhileLoop; [reflexivity|eapply ZWhileVal; [reflexivity|intros ? ?; discriminate|eapply ZCode]|eapply ZCode| | |].
+      + eexists _, _. split; [reflexivity|]. right. eexists. reflexivity.
+      + eexists _, _. split; [reflexivity|]. right. eexists. reflexivity.
+      + eapply ZWhileRound; [eapply ZBLast; eapply ZSExprV; eapply ZPure; eapply PBin; [eapply PVarG; reflexivity|eapply PNum|reflexivity]
+                            |eapply ZBLast; eapply ZSAssign; [discriminate|eapply ZPure; eapply PBin; [eapply PVarG; reflexivity|eapply PNum|reflexivity]|split; discriminate]|].
+        eapply ZWhileRound; [eapply ZBLast; eapply ZSExprV; eapply ZPure; eapply PBin; [eapply PVarG; reflexivity|eapply PNum|reflexivity]
+                            |eapply ZBLast; eapply ZSAssign; [discriminate|eapply ZPure; eapply PBin; [eapply PVarG; reflexivity|eapply PNum|reflexivity]|split; discriminate]|].
+        eapply ZWhileRound; [eapply ZBLast; eapply ZSExprV; eapply ZPure; eapply PBin; [eapply PVarG; reflexivity|eapply PNum|reflexivity]
+                            |eapply ZBLast; eapply ZSAssign; [discriminate|eapply ZPure; eapply PBin; [eapply PVarG; reflexivity|eapply PNum|reflexivity]|split; discriminate]|].
+        eapply ZWhileStop. eapply ZBLast; eapply ZSExprV; eapply ZPure; eapply PBin; [eapply PVarG; reflexivity|eapply PNum|reflexivity].
+    - eapply ZPLast. eapply ZSExprV. eapply ZPure. eapply PVarG; reflexivity. }
+  reflexivity.
+Qed.
+Definition ex_running_loop : rt :=
+  let r := load (create_rt [] 0 0 0 150) (compile_block ex_loop_prog) in
+  rt_with r (r_ctxs r) (Some 0) StRunning false false true false [] [] (r_nss r) (r_clock r) (r_timestamp r) (r_next_id r).
+Example program_premises :
+  let c := push_frame (new_context 0 false) (mk_frame default_ns (compile_block ex_loop_prog) None None []) in
+  let f := mk_frame default_ns (compile_block ex_loop_prog) None None [] in
+  AtM init_state RNone ex_running_loop c f [] [] /\ f_code f = compile_block ex_loop_prog /\ f_pos f = 0 /\ f_exit f = None.
+Proof.
+  cbv zeta. split; [|repeat split].
+  split; [|split; [reflexivity|exists []; split; reflexivity]].
+  split; [unfold Good; split; [reflexivity|cbn; auto 10]|]. split; [reflexivity|]. split.
+  - split; [|reflexivity]. cbn. constructor; [|constructor]. split; [intros k; reflexivity|split; reflexivity].
+  - split; [cbn; lia|reflexivity].
 Qed.
